@@ -143,8 +143,14 @@ Example c19_witness_narrow_promotion :
 Proof. vm_compute. reflexivity. Qed.
 
 Example c19_witness_pointer_scaled :
-  run_backend BFiber KPtr (sem_eval false) (CPtr 4) [Call FAdd false false (-2) 0; Call PostInc false false 0 0; Call PreDec false false 0 0] 400
+  run_backend BFiber KPtr (sem_eval false) (CPtr 4 4) [Call FAdd false false (-2) 0; Call PostInc false false 0 0; Call PreDec false false 0 0] 400
   = Some [(392, 400, -2); (396, 392, 0); (392, 392, 0)].
+Proof. vm_compute. reflexivity. Qed.
+
+(* an atomic pointer to pointers-to-int: the step is the size of a pointer (8), not sizeof(int) *)
+Example c19_witness_pointer_to_pointer :
+  run_backend BFiber KPtr (sem_eval false) (CPtr 8 4) [Call FAdd false false 1 0; Call SubA true false 2 0; Call PreInc false false 0 0] 400
+  = Some [(408, 400, 1); (392, 392, 2); (400, 400, 0)].
 Proof. vm_compute. reflexivity. Qed.
 
 Example c19_witness_spurious_then_success :
